@@ -164,6 +164,12 @@ func cmdCheck(args []string) int {
 		return true
 	}
 	var keys []string
+	explicit := map[string]bool{}
+	for _, p := range pc.Functions {
+		if !strings.HasSuffix(p, "*") {
+			explicit[p] = true
+		}
+	}
 	for _, p := range pc.Functions {
 		if strings.HasSuffix(p, "*") {
 			keys = append(keys, expandFuncs(e, []string{p})...)
@@ -177,6 +183,11 @@ func cmdCheck(args []string) int {
 	}
 	var inlined []string
 	for _, k := range keys {
+		if f := e.funcs[k]; f != nil && f.Parent() != nil && !explicit[k] {
+			// closures are verified where they are created (inlined at their call / defer / callback site)
+			inlined = append(inlined, k)
+			continue
+		}
 		if ct := e.contracts.Funcs[k]; ct != nil && ct.Inline {
 			// verified in the context of each caller (expanded at its call sites)
 			inlined = append(inlined, k)
